@@ -11,7 +11,7 @@ B = 1 << 64; M = B - 1
 
 LEAN_MODULES = ["MpirProofs.Props.C13_cmp"]
 THEOREMS = ["Mpir.MpfCmp." + t for t in """
-    cmp_spec cmp_antisymm sgn_spec eq_spec eq_refl eq_wrapped_before_b2b40d5 reldiff_zero reldiff_spec
+    cmp_spec cmp_antisymm sgn_spec bitExp_bounds eq_spec eq_refl eq_wrapped_before_b2b40d5 reldiff_zero reldiff_spec
 """.split()]
 TRUSTED = ["hand-written model lean/Mpir/Model/MpfCmp.lean of mpf/eq.c (mp_bitcnt_t arithmetic mod 2^64, the n_bits clamp of b2b40d5), "
            "mpf/reldiff.c and the mpf_sgn macro — tied by correspondence on every run (ops mpf_eq13, mpf_reldiff, mpf_sgn13; mpf_cmp13 for Mpir.Mpf.cmp)"]
